@@ -4,8 +4,9 @@ Implementation side: the real `recoco.Scheduler(startInThread=False, threaded_se
 `BaseTask`/`Timer`/`Again`/`Sleep`/`Select`/`Recv`/`Send`/`Exit`; `time.time` is the virtual clock and
 `SelectHub._select_func` is the virtual select of Model/Recoco.lean (`vselect`).  No threads are ever started.
 Times in cases are integers in units of 1/8 s (exact in binary64)."""
-import sys, io, re, json, time, threading, itertools, contextlib, select as _rsel, socket, os
+import sys, io, re, json, time, random, threading, itertools, contextlib, select as _rsel, socket, os
 import common, poxenv
+import forcedthreads as ft
 from common import Check
 
 # Which code the model mirrors.  Flip an entry to True in the same change that commits the corresponding repair to the
@@ -235,6 +236,155 @@ class Run(object):
         return obs
 
 
+class _AllOf:
+    """`(filename, firstlineno) in x` for every function of the given files (line coverage under the forced scheduler)"""
+    def __init__(self, files): self.files = files
+    def __contains__(self, k): return k[0] in self.files
+
+
+class ThreadedRun(Run):
+    """The same task programs on `Scheduler(startInThread=True, threaded_selecthub=True)`: the scheduler thread `S` and the hub
+    thread `H` are real threads managed by the forced thread scheduler (harness/forcedthreads.py): they run one at a time,
+    switching only at operations of the replaced primitives (Event, Queue, Pinger, select, Lock), in the order a seeded chooser
+    picks.  Time is virtual: it advances only when no thread can run, to the earliest pending deadline (`Event.wait(t)`,
+    `select(..., t)`) or scripted descriptor readiness; `select(..., 0)` is a poll.  Nothing of recoco is edited: the
+    primitives are installed as module attributes for the duration of the run."""
+    MAX_STEPS = 8000
+
+    def go(self):
+        import pox.lib.util as util
+        rc = self.rc; case = self.case; H = self
+        self.clock.now = case["t0"] / UNIT
+        sc = case["sched"]
+        rng = random.Random(sc["seed"])
+        if sc["t"] == "pct": chooser = ft.PCTChooser(rng, sc.get("d", 3), sc.get("k", 300))
+        elif sc["t"] == "seq": chooser = ft.PreemptChooser(["S", "H"] if sc["seed"] % 2 == 0 else ["H", "S"], {})
+        else: chooser = ft.RandomChooser(rng)
+        cover = None
+        tr = sys.gettrace()                                   # run_check's AnchorCoverage tracer, if it is active
+        covobj = getattr(tr, "__self__", None)
+        if isinstance(covobj, common.AnchorCoverage): cover = covobj.hit
+        rfile = rc.__file__
+        ctl = ft.Controller(chooser, trace_funcs=(_AllOf({rfile}) if cover is not None else ()), yield_lines=(),
+                            max_steps=self.MAX_STEPS, frame_files=(rfile,), cover=cover)
+        def namer(th):
+            n = getattr(th._target, "__name__", "")
+            return "H" if n == "_threadProc" else "S" if n == "run" else None
+        prim = ft.make_primitives(ctl, namer)
+        deadlines = {}                                         # thread name -> virtual time at which its blocking call times out
+        class VEvent(prim.Event):
+            def wait(ev, timeout=None):
+                me = ctl.me()
+                if me is not None and timeout is not None: deadlines[me.name] = H.clock.now + timeout
+                return prim.Event.wait(ev, timeout)
+        class VThreading(prim.threading):
+            Event = VEvent
+        def is_ready(o, k):
+            if isinstance(o, prim.Pinger): return k == 0 and o.count > 0
+            t = H.tabs[k].get(o.id)
+            return t is not None and t <= H.now()
+        def vsel(r, w, x, timeout=None):
+            lists = [list(r), list(w), list(x)]
+            def result():
+                return tuple([o for o in l if is_ready(o, k)] for k, l in enumerate(lists))
+            if timeout is not None and timeout <= 0:          # a poll returns at once
+                ctl.yield_point(prim.P("select"))
+                return result()
+            me = ctl.me()
+            if me is not None and timeout is not None: deadlines[me.name] = H.clock.now + timeout
+            to = ctl.yield_point(prim.P("select"), blocked=lambda: any(result()), timeout=timeout is not None)
+            if to: return [], [], []
+            return result()
+        class VSelectModule:
+            select = staticmethod(vsel); error = OSError
+        saved = (rc.threading, rc.Thread, rc.Queue, rc.select, util.makePinger)
+        trace_saved = sys.gettrace()
+        sys.settrace(None)
+        rc.threading, rc.Thread, rc.Queue, rc.select = VThreading, prim.Thread, prim.Queue, VSelectModule
+        util.makePinger = lambda: prim.Pinger()
+        out = io.StringIO()
+        redir = contextlib.ExitStack()
+        try:
+            sched = self.sched = rc.Scheduler(isDefaultScheduler=False, startInThread=True, daemon=True, threaded_selecthub=True)
+            hub = self.hub = sched._selectHub
+            self.last_reg = {}
+            real_register = hub.registerSelect
+            def register(task, *a, **kw):
+                H.last_reg[H.tid(task)] = H.now()
+                return real_register(task, *a, **kw)
+            hub.registerSelect = register
+            class T(rc.BaseTask):
+                def run(t, tid, prog): return H.body(tid, prog)
+            tops = []
+            for k in case["tasks"]:
+                tid = self.ntids; self.ntids += 1
+                t = T(tid, case["progs"][k]); self.tid_of[id(t)] = tid; tops.append(t)
+                t.start(scheduler=sched, fast=True)             # from the scheduler's point of view: scheduled before it starts
+            self.timers = []
+            for (delay, recurring, selfstop, false_at) in case["timers"]:
+                tid = self.ntids; self.ntids += 1
+                st = {"n": 0}
+                def cb(tid=tid, st=st, false_at=false_at):
+                    n = st["n"]; st["n"] += 1
+                    H.trace.append(["f", tid, n, H.now()])
+                    return False if false_at == n else None
+                tm = rc.Timer(delay / UNIT, cb, recurring=recurring, selfStoppable=selfstop, scheduler=sched, started=False)
+                tm.start(scheduler=sched, fast=True)
+                self.tid_of[id(tm)] = tid; self.timers.append(tm)
+            self.keep += tops
+            budget = case["budget"]
+            st = {"n": 0, "quit": None}
+            real_cycle = sched.cycle
+            def cycle():
+                st["n"] += 1
+                r = real_cycle()
+                if st["n"] >= budget and st["quit"] is None:
+                    st["quit"] = sched._hasQuit; sched._hasQuit = True
+                return r
+            sched.cycle = cycle
+            fd_times = sorted(set(t for tab in self.tabs for t in tab.values() if t is not None))
+            def policy(c, en):
+                if en: return chooser.pick(c, en)
+                now = H.now()
+                cands = [t for t in c.threads if not t.done and t.timeout]
+                nothing_pending = (not sched._ready and sched._selectHub._incoming.qsize() == 0 and
+                                   not any(e[4] is not None for e in hub._tasks.values()) and not any(t > now for t in fd_times))
+                if nothing_pending: return ("stop", "quiescent")
+                if not cands: return ("stop", "deadlock")
+                while True:
+                    now = H.now()
+                    nxt = min([deadlines[t.name] for t in cands] + [t / UNIT for t in fd_times if t > now])
+                    if nxt > H.clock.now: H.clock.now = nxt
+                    en = c.enabled()
+                    if en: return chooser.pick(c, en)           # a descriptor became ready
+                    due = sorted((t for t in cands if deadlines[t.name] <= H.clock.now), key=lambda t: t.name)
+                    if due: return ("timeout", due[rng.randrange(len(due))])
+            redir.enter_context(contextlib.redirect_stdout(out)); redir.enter_context(contextlib.redirect_stderr(out))
+            status = ctl.run(policy)
+            redir.close()
+            errors = dict((t.name, t.error) for t in ctl.threads if t.error)
+            run_exc = None
+            if errors: run_exc = sorted(errors.values())[0].split(":")[0]
+            text = out.getvalue()
+            excs = sorted(set(m.split(".")[-1] for m in re.findall(r"^([A-Za-z_][\w.]*)(?::|$)", text, re.M)
+                              if m not in ("Task", "Traceback")))
+            ended = status in ("quiescent", "alldone")
+            obs = {"trace": self.trace, "quit": ended and run_exc is None, "crashed": run_exc is not None,
+                   "cycles": (case["budget"] if status == "budget" else st["n"]), "now": self.now(),
+                   "ready": [self.tid(t) for t in sched._ready], "incoming": [self.tid(e[0]) for e in hub._incoming.snapshot()],
+                   "hub": [self.tid(t) for t in hub._tasks], "subs": self.subs, "overlap": self.overlap,
+                   "run_exc": run_exc if run_exc else ("deadlock" if status == "deadlock" else None),
+                   "descheduled": text.count("de-scheduled"), "excs": excs, "status": status, "steps": ctl.steps}
+            if status == "deadlock": obs["crashed"] = True
+        finally:
+            redir.close()
+            leaked = ctl.teardown()
+            rc.threading, rc.Thread, rc.Queue, rc.select, util.makePinger = saved
+            sys.settrace(trace_saved)
+            if leaked: common.log("C06: managed threads did not unwind: %s" % leaked)
+        return obs
+
+
 # --------------------------------------------------------------------------------------------------------------- cases
 
 def mk(progs, tasks, timers=(), r=(), w=(), x=(), send=(), recv=(), t0=T0, budget=400, label=""):
@@ -367,6 +517,117 @@ def run_epoll(case):
     return {"epoll": out}
 
 
+# ---- threaded select hub ------------------------------------------------------------------------------------------
+
+TH_A = [SLEEP4, ["sleep", 12], NUM0, SEL_T, RAISE, ["again", -1, True]]
+TH_B = [SLEEP4, ["sleep", 12]]
+TH_C = [SLEEP4, ["sleep", 12], NUM0]
+
+
+def threaded(case, sched):
+    c = dict(case); c["mode"] = "threaded"; c["sched"] = sched
+    return c
+
+
+def sched_of(i):
+    return {"t": ("seq", "random", "pct", "random")[i % 4], "seed": i}
+
+
+def thr_hand_cases():
+    """the scenarios of the inline tier that make sense on the threaded hub, each under several schedules"""
+    P3 = [[["sleep", 8]], [["sleep", 40]]]
+    base = [mk(P3, [0, 0, 1], label="thr: two equal deadlines and a later one (C06-D)"),
+            mk([[["sleep", 8], NUM0, ["sleep", 8]], [["sleep", 8]], [["sleep", 24], NUM0]], [0, 1, 1, 2], label="thr: equal deadlines, re-sleep"),
+            mk([[["sleep", 4]], [["sleep", 8]], [["sleep", 12]]], [0, 1, 2], label="thr: distinct deadlines")]
+    hc = list(hand_cases())
+    keep = ("design spike D.5", "sub-task results", "uncaught sub-task exception", "two tasks select on one fd", "recv + partial sends",
+            "exit", "cancel", "clock at 0")
+    base += [c for c in hc if c["label"] in keep]
+    base.append(mk(sub_table([[["sleep", 8], RAISE], [["sleep", 8], NUM0, NUM0], [["again", 4, True], ["sleep", 8]]]), [0, 1, 2, 1],
+                   [[8, False, True, None], [4, True, True, 2]], label="thr: raise, sub-task, timers"))
+    for c in base:
+        for i in range(6):
+            yield threaded(c, sched_of(i))
+
+
+def rand_thr_case(rng):
+    ntop = rng.randint(2, 4)
+    nsub = rng.choice([0, 1, 2])
+    nprogs = ntop + nsub
+    ntimers = rng.choice([0, 0, 1, 2])
+    D = [4, 4, 8, 8, 12, 16, 0]
+    def y(lo):
+        r = rng.random()
+        if r < 0.18: return ["num", 0]
+        if r < 0.26: return ["num", rng.choice(D)]
+        if r < 0.52: return ["sleep", rng.choice(D)]
+        if r < 0.56: return ["sleepabs", T0 + rng.choice([0, 4, 8, 12])]
+        if r < 0.70: return ["select", rng.choice([[], [], [0], [1], [0, 1]]), rng.choice([[], None, [2]]), [], rng.choice([4, 8, None, 12])]
+        if r < 0.73: return ["block"]
+        if r < 0.78: return ["raise", 1]
+        if r < 0.81: return ["recv", rng.randrange(3), rng.choice([None, 8])]
+        if r < 0.84: return ["send", 2, rng.choice([3, 8]), rng.choice([None, 8]), 4]
+        if r < 0.855: return ["exit"]
+        if r < 0.96 and lo < nprogs: return ["again", rng.randrange(lo, nprogs), rng.random() < 0.7]
+        if ntimers: return ["cancel", rng.randrange(ntimers)]
+        return ["sleep", 4]
+    progs = [[y(ntop if k < ntop else k + 1) for _ in range(rng.choice([1, 2, 3, rng.randint(0, 5)]))] for k in range(nprogs)]
+    timers = [[rng.choice([4, 8, 5]), rng.random() < 0.5, True, rng.choice([0, 1, 2])] for _ in range(ntimers)]
+    tab = lambda: [None if rng.random() < 0.4 else T0 + rng.choice([0, 4, 6, 12]) for _ in range(3)]
+    c = mk(progs, list(range(ntop)), timers, tab(), tab(), [None, None, None], [rng.choice([2, 4, 1]) for _ in range(rng.choice([0, 3]))], [],
+           T0, 300, "thr-random")
+    return threaded(c, {"t": rng.choice(["seq", "random", "random", "pct"]), "seed": rng.randrange(1 << 30)})
+
+
+def schedule_independent(case):
+    """Program tables for which every per-task observation is the same under all schedules of the two threads, and equal to the
+    inline hub's: no Exit (which tasks still run is a race), no timer.cancel() (races with the firing), no scripted sockets
+    (one global script), and no descriptor that two waits could compete for (the later registration shadows the earlier)."""
+    uses = {}
+    inst = {}
+    for k in case["tasks"]: inst[k] = inst.get(k, 0) + 1
+    calls = {}
+    for p in case["progs"]:
+        for y in p:
+            if y[0] == "again": calls[y[1]] = calls.get(y[1], 0) + 2          # a sub-function may be called more than once
+    for k, p in enumerate(case["progs"]):
+        n = inst.get(k, 0) + calls.get(k, 0)
+        for y in p:
+            if y[0] in ("exit", "cancel", "recv", "send"): return False
+            if y[0] == "select":
+                for kind, l in zip("rwx", y[1:4]):
+                    for f in (l or []):
+                        uses[(kind, f)] = uses.get((kind, f), 0) + max(n, 1)
+        if sum(1 for y in p if y[0] == "select" and (y[1] or y[2] or y[3])) > 1 and n: return False
+    return all(v <= 1 for v in uses.values())
+
+
+def model_subs(case, trace):
+    """sub-task table [tid, prog, parent, parent step] reconstructed from a model trace (tids are given out in creation order)"""
+    ntop = len(case["tasks"]); nxt = ntop + len(case["timers"])
+    prog = dict((t, case["progs"][k]) for t, k in enumerate(case["tasks"]))
+    subs = []
+    for e in trace:
+        if e[0] != "s" or e[1] not in prog: continue
+        p = prog[e[1]]; i = e[2]
+        died = i > 0 and p[i - 1][0] == "again" and not p[i - 1][2] and e[4] is not None and e[4][0] == "exc"
+        if i < len(p) and p[i][0] == "again" and not died:
+            subs.append([nxt, p[i][1], e[1], i]); prog[nxt] = case["progs"][p[i][1]]; nxt += 1
+    return subs
+
+
+def per_task_view(case, trace, subs):
+    """what is determined whatever the interleaving: for every task (sub-tasks named by their call path) its own sequence of
+    (step, virtual time, value/exception received, wake time), and every timer's firing times"""
+    name = dict((t, "t%d" % t) for t in range(len(case["tasks"]) + len(case["timers"])))
+    for tid, k, ptid, pidx in subs: name[tid] = "%s/%d" % (name.get(ptid, "?%d" % ptid), pidx)
+    view = {}
+    for e in trace:
+        n = name.get(e[1], "?%d" % e[1])
+        view.setdefault(n, []).append(e[2:] if e[0] == "s" else ["fire"] + e[2:])
+    return view
+
+
 class C06(Check):
     id = "C06"
     title = "Cooperative scheduler runs every task step exactly once, in isolation"
@@ -430,6 +691,12 @@ class C06(Check):
         cases += list(scope(ALPHA, 3, 1, label="scope3x1"))                      # 26^3
         for alpha in ([NUM0, SLEEP4], [NUM0, ["again", -1, True]], [SEL_R0, RAISE]):
             cases += list(scope(alpha, 3, 3, label="scope3x3"))                  # 15^3 each
+        # threaded select hub (forced thread scheduler)
+        cases += list(thr_hand_cases())
+        for i, c in enumerate(scope(TH_A, 3, 1, timers=[], label="thr-scope3x1")):      # 7^3
+            cases.append(threaded(c, sched_of(i)))
+        for i, c in enumerate(scope(TH_B, 3, 2, timers=[], label="thr-scope3x2")):      # 7^3
+            cases.append(threaded(c, sched_of(i + 1)))
         return cases
 
     def generate(self, rng, tier):
@@ -438,7 +705,12 @@ class C06(Check):
             yield rand_case(rng)
         for _ in range(40 if tier == "quick" else 400):
             yield epoll_case(rng)
+        for _ in range(150 if tier == "quick" else 2500):
+            yield rand_thr_case(rng)
         if tier == "thorough":
+            for i, c in enumerate(scope(TH_C, 3, 2, timers=[[8, False, True, None]], label="thr-scope3x2-wide")):   # 13^3, two schedules each
+                yield threaded(c, sched_of(i))
+                yield threaded(c, {"t": "random", "seed": rng.randrange(1 << 30)})
             drop = [SLEEPN, ["sleepabs", T0 + 4], ["again", -2, False], ["again", -5, False], ["again", -1, False]]
             for c in scope([a for a in ALPHA if a not in drop], 2, 2, label="scope2x2-wide"):      # 421^2
                 yield c
@@ -448,13 +720,17 @@ class C06(Check):
                     yield c
 
     def search_cases(self, rng, tier):
+        i = 0
         while True:
-            yield rand_case(rng, maxlen=rng.choice([3, 6, 12]))
+            i += 1
+            yield rand_thr_case(rng) if i % 8 == 0 else rand_case(rng, maxlen=rng.choice([3, 6, 12]))
 
     # -- implementation (observables are kept as one JSON string per case: hundreds of thousands of cases are held in memory)
     def impl(self, case):
         if case.get("kind") == "epoll":
             return {"j": json.dumps(run_epoll(case), separators=(",", ":"))}
+        if case.get("mode") == "threaded":
+            return {"j": json.dumps(ThreadedRun(self.rc, case).go(), separators=(",", ":"))}
         return {"j": json.dumps(Run(self.rc, case).go(), separators=(",", ":"))}
 
     def _o(self, obs):
@@ -466,15 +742,22 @@ class C06(Check):
 
     def model_request(self, case):
         if case.get("kind") == "epoll": return None                 # plain differential test, no model counterpart
-        r = {k: v for k, v in case.items() if k not in ("label", "_iso")}
+        if case.get("mode") == "threaded" and not schedule_independent(case):
+            return None                                             # more than one legal outcome: the oracle alone judges
+        r = {k: v for k, v in case.items() if k not in ("label", "_iso", "mode", "sched")}
         r.update(REPAIRED)
         return r
 
     def model_obs(self, case, resp):
-        return resp if "error" in resp else {k: resp.get(k) for k in self.KEYS}
+        if "error" in resp: return resp
+        if case.get("mode") == "threaded":                          # the inline model, projected on what no interleaving can change
+            return per_task_view(case, resp["trace"], model_subs(case, resp["trace"]))
+        return {k: resp.get(k) for k in self.KEYS}
 
     def impl_view(self, case, obs):
         o = self._o(obs)
+        if case.get("mode") == "threaded":
+            return per_task_view(case, o["trace"], o["subs"])
         return {k: o[k] for k in self.KEYS}
 
     # -- the property itself, on the implementation's observables (independent of the model)
@@ -671,6 +954,11 @@ def oracle(chk, case, o):
         c2 = dict(case); c2["_iso"] = True
         ks = set(case["tasks"][tid] for tid, _ in raised)
         c2["progs"] = [[(["block"] if (k in ks and y[0] == "raise") else y) for y in p] for k, p in enumerate(case["progs"])]
+        if case.get("mode") == "threaded":                          # same schedule; compare what each task saw
+            o2 = ThreadedRun(chk.rc, c2).go()
+            if per_task_view(case, o2["trace"], o2["subs"]) != per_task_view(case, o["trace"], o["subs"]):
+                return "isolation | a raising task changed the run of the others (per-task traces differ when it blocks instead)"
+            return None
         o2 = Run(chk.rc, c2).go()
         for key in ("trace", "now", "ready", "hub", "incoming", "cycles"):
             if o2[key] != o[key]:
